@@ -102,6 +102,57 @@ func ruleMergeOrder(c *eng.Ctx) {
 				order = "newest-first"
 			}
 		}
+		if order == "" {
+			// the walk along /Prev as a tail recursion: a helper that parses the previous table, puts it before or
+			// after the list it was handed and calls itself with the new list in the same parameter
+			for _, h := range eng.Cluster(fn, 2) {
+				if h == fn || h.Pkg != fn.Pkg {
+					continue
+				}
+				var pv ssa.Value
+				for _, pc := range eng.CallsNamed(h, false, "core.(*XRefParser).ParsePrevXRef") {
+					for _, r := range *pc.Value().Referrers() {
+						if ex, ok := r.(*ssa.Extract); ok && ex.Index == 0 {
+							pv = ex
+						}
+					}
+				}
+				if pv == nil {
+					continue
+				}
+				for _, self := range eng.Calls(h, false, func(_ string, ci ssa.CallInstruction) bool { return eng.StaticCallee(ci) == h }) {
+					sargs := eng.ArgsWithRecv(self)
+					for pi, a := range sargs {
+						app, ok := a.(*ssa.Call)
+						if !ok {
+							continue
+						}
+						if bi, ok := app.Call.Value.(*ssa.Builtin); !ok || bi.Name() != "append" || len(app.Call.Args) != 2 {
+							continue
+						}
+						if pi >= len(h.Params) {
+							continue
+						}
+						carried := ssa.Value(h.Params[pi])
+						has := func(v ssa.Value, want ssa.Value) bool {
+							for w := range eng.Slice(v, nil) {
+								if w == want {
+									return true
+								}
+							}
+							return false
+						}
+						a0, a1 := app.Call.Args[0], app.Call.Args[1]
+						switch {
+						case has(a0, pv) && a1 == carried:
+							order = "oldest-first"
+						case a0 == carried && has(a1, pv):
+							order = "newest-first"
+						}
+					}
+				}
+			}
+		}
 		// a reversing copy after the loop (dst[n-1-i] = acc[i]) or slices.Reverse flips the order
 		reversed := false
 		eng.Instrs(fn, false, func(in ssa.Instruction) {
@@ -295,6 +346,22 @@ func ruleFreeIsError(c *eng.Ctx) {
 					if n := eng.FuncName(g); n == "reader.(*Reader).getCompressedObject" || n == "reader.(*Reader).getUncompressedObject" {
 						loads = append(loads, loadSite{ci, n})
 					}
+				}
+			}
+		}
+	}
+	if len(loads) == 0 {
+		// the loader as an implementation of a small interface, picked by a selector function
+		for _, ci := range eng.Calls(fn, false, func(string, ssa.CallInstruction) bool { return true }) {
+			if !ci.Common().IsInvoke() {
+				continue
+			}
+			for _, g := range c.P.Callees(ci) {
+				if g.Blocks == nil || !eng.InModule(g) {
+					continue
+				}
+				for _, c2 := range eng.CallsNamed(g, false, "reader.(*Reader).getCompressedObject", "reader.(*Reader).getUncompressedObject") {
+					loads = append(loads, loadSite{ci, eng.CalleeName(c2)})
 				}
 			}
 		}
